@@ -243,7 +243,11 @@ func hashWithPackage(pkg *listedPackage, name string) string {
 	// Use a separator at the end of ImportPath as a salt,
 	// to ensure that "pkgfoo.bar" and "pkg.foobar" don't both hash
 	// as the same string "pkgfoobar".
-	return hashWithCustomSalt([]byte(pkg.ImportPath+"|"), name)
+	//
+	// A package recompiled for a test binary is listed as "foo [foo.test]".
+	// It is still package foo, so a seed must give it the same names as foo.
+	path, _, _ := strings.Cut(pkg.ImportPath, " [")
+	return hashWithCustomSalt([]byte(path+"|"), name)
 }
 
 // hashWithStruct is separate from hashWithPackage since Go
